@@ -488,6 +488,15 @@ def run(ctx):
     for _ in range(260 * n):
         cases.append(gen_plugin(rng, ctx))
     cases += lock_slot_cases(ctx)
+    # pool requests with pre-allocation around the number of free IPs of a node subnet (59 and 6 here): fits in the first subnet,
+    # needs the second one, exceeds everything; each followed by the pool's deletion
+    for size in (1, 6, 7, 58, 59, 60, 64, 65, 66, 70, 1000, 10 ** 6):
+        nm = "pre%d" % size
+        cases.append({"op": "api_http", "route": "pool_put", "body": jdump({"name": nm, "size": size, "preAllocateIP": True})})
+        cases.append({"op": "api_http", "route": "pool_put", "body": jdump({"name": nm, "size": size + 1, "preAllocateIP": True})})
+        cases.append({"op": "api_http", "route": "release", "body": jdump({"ips": [{"ip": "10.0.0.%d" % k, "poolName": nm} for k in range(2, 61)]})})
+        cases.append({"op": "api_http", "route": "pool_del", "name": nm})
+        ctx.dist("api_http:pool-preallocation-size-%d" % size)
     for _ in range(200 * n):
         cases.append(gen_api_http(rng, ctx))
     for _ in range(160 * n):
